@@ -45,7 +45,11 @@ ARITH = {'+': 'OP_ADD', '-': 'OP_SUB', '*': 'OP_MUL', '/': 'OP_DIV',
          '^': 'POWER', '&': 'CONCAT'}
 NUM_SPELL = ['np', 'Number', 'dectext', 'floattext', 'scitext', 'Text',
              'TextSci', 'float', 'bool', 'Boolean', 'None', 'BLANK',
-             'nonnumeric']
+             'nonnumeric',
+             # through a formula: the argument as a text literal, as a
+             # reference to a cell holding text / a boolean, as a blank cell
+             'f:textlit', 'f:scilit', 'f:textcell', 'f:boolcell',
+             'f:boollit', 'f:blankcell', 'f:nonnumeric']
 TEXT_SPELL = ['Text', 'int', 'Number', 'npint', 'bool', 'Boolean']
 SKIP = (FT.VOLATILE | FT.LAZY | FT.PANDAS_BROKEN | FT.ERROR_INSPECTORS
         | {'RANDBETWEEN'})
@@ -245,6 +249,8 @@ def _spell(case, res):
     if canon[0] in ('E', 'X'):
         res.labels += ('canonical-not-a-value',)
         return res
+    if sp.startswith('f:'):
+        return _spell_formula(case, res, fn, args, pos, sp, canon)
     if case['kind'] in ('num', 'date'):
         spelled, ok = _spell_num(args[pos], sp)
     else:
@@ -266,6 +272,53 @@ def _spell(case, res):
         if obs[0] == 'X':
             b = 'spelling-exception:%s:pos%d:%s:%s' % (fn, pos, obs[1], sp)
         res.fail(b, canon, obs, [fn, pos, sp, repr(args[pos])])
+    return res
+
+
+def _spell_formula(case, res, fn, args, pos, sp, canon):
+    xl = lib.lib()
+    v = args[pos]
+    if any(isinstance(a, list) for a in args) or isinstance(v, str):
+        res.labels += ('spelling-not-applicable',)
+        return res
+    integral = float(v) == int(v)
+    dec = str(int(v)) if integral and isinstance(v, int) else repr(float(v))
+    cells, presets = {}, {}
+    if sp == 'f:textlit':
+        ok, arg = 'e' not in dec, '"%s"' % dec
+    elif sp == 'f:scilit':
+        ok, arg = float('%.15e' % v) == float(v), '"%.15e"' % v
+    elif sp == 'f:textcell':
+        ok, arg = 'e' not in dec, 'K9'
+        cells['Sheet1!K9'] = dec
+    elif sp == 'f:boolcell':
+        ok, arg = v in (0, 1), 'K9'
+        cells['Sheet1!K9'] = 5
+        presets['Sheet1!K9'] = bool(v)
+    elif sp == 'f:boollit':
+        ok, arg = v in (0, 1), 'TRUE' if v else 'FALSE'
+    elif sp == 'f:blankcell':
+        ok, arg = v == 0, 'K9'
+    else:
+        ok, arg = True, '"xyzzy"'
+    if not ok:
+        res.labels += ('spelling-not-applicable',)
+        return res
+    parts = [_flit(a) for a in args]
+    parts[pos] = arg
+    text = '=%s(%s)' % (fn, ','.join(parts))
+    obs = lib.eval_formula(text, cells, addr='Sheet1!ZZ9', presets=presets)[0]
+    res.nontrivial = True
+    if sp == 'f:nonnumeric':
+        if obs != ('E', '#VALUE!'):
+            res.fail('nonnumeric-text:%s:pos%d:formula' % (fn, pos),
+                     ('E', '#VALUE!'), obs, text)
+        return res
+    if not _same(obs, canon):
+        b = 'spelling:%s:pos%d:%s' % (fn, pos, sp)
+        if obs[0] == 'X':
+            b = 'spelling-exception:%s:pos%d:%s:%s' % (fn, pos, obs[1], sp)
+        res.fail(b, canon, obs, text)
     return res
 
 
